@@ -210,6 +210,10 @@ class Evolver:
             return {"kind": "map", "key": {"kind": "base", "name": "integer"}, "value": self.simple_type(depth + 1, False)}
         if k == "map-enumkey":
             pool = self.new_enums * 2 + self.closed_enums + [e["name"] for e in self.doc["enumerations"] if e.get("supportsCustomValues")]
+            # keys of a JSON object are strings: an enumeration is a key type only when its values are strings (an integer-valued
+            # one has no spelling as a key that the metamodel or the package defines - see DESIGN 2.4)
+            stringy = {e["name"] for e in self.doc["enumerations"] if e["values"] and all(isinstance(v["value"], str) for v in e["values"])}
+            pool = [n for n in pool if n in stringy]
             if not pool:
                 return {"kind": "map", "key": {"kind": "base", "name": "integer"}, "value": {"kind": "base", "name": "string"}}
             return {"kind": "map", "key": {"kind": "reference", "name": self.pick(pool)}, "value": self.simple_type(depth + 1, False)}
@@ -509,11 +513,13 @@ class Evolver:
             base_n, item_n = self.fresh_type_name("VfAndBase"), self.fresh_type_name("VfAndItem")
             U_, I_ = {"kind": "base", "name": "uinteger"}, {"kind": "base", "name": "integer"}
             self.doc["structures"].append({"name": base_n, "properties": [{"name": "vfLimit", "type": I_}, {"name": "vfDepth", "type": U_, "optional": True},
-                                                                        {"name": "vfNote", "type": {"kind": "or", "items": [{"kind": "base", "name": "string"}, {"kind": "base", "name": "null"}]}}]})
+                                                                        {"name": "vfNote", "type": {"kind": "or", "items": [{"kind": "base", "name": "string"}, {"kind": "base", "name": "null"}]}},
+                                                                        # (and one the item only inherits)
+                                                                        {"name": "vfInherited", "type": {"kind": "base", "name": "string"}, "optional": True}]})
             self.doc["structures"].append({"name": item_n, "extends": [{"kind": "reference", "name": base_n}],
                                            "properties": [{"name": "vfLimit", "type": U_}, {"name": "vfDepth", "type": I_}, {"name": "vfNote", "type": {"kind": "base", "name": "string"}, "optional": True}]})
             self.new_structs += [base_n, item_n]
-            self.edits.append({"edit": "E1-new-structure", "name": base_n, "properties": ["vfLimit", "vfDepth", "vfNote"]})
+            self.edits.append({"edit": "E1-new-structure", "name": base_n, "properties": ["vfLimit", "vfDepth", "vfNote", "vfInherited"]})
             self.edits.append({"edit": "E1-new-structure", "name": item_n, "properties": ["vfLimit", "vfDepth", "vfNote"]})
             self.counter += 1
             ov = {"method": f"vf/andOverride{self.counter}", "messageDirection": "clientToServer", "params": self._struct_ref(), "result": {"kind": "base", "name": "null"},
@@ -524,7 +530,11 @@ class Evolver:
             # (requests and notifications, with and without typeName)
             for is_req, typed, first in ((True, True, True), (True, False, False), (False, True, False), (False, False, True)):
                 self.counter += 1
-                opts = self.pick([s for s in self.base_structs if s.endswith("Options") and not s.endswith("RegistrationOptions")] or self.base_structs)
+                cands = [s for s in self.base_structs if s.endswith("Options") and not s.endswith("RegistrationOptions")]
+                if first:   # an item whose properties come (also) from what it extends or mixes in
+                    with_parents = {s["name"] for s in self.doc["structures"] if s.get("extends") or s.get("mixins")}
+                    cands = [s for s in cands if s in with_parents] or cands
+                opts = self.pick(cands or self.base_structs)
                 items = [{"kind": "reference", "name": "TextDocumentRegistrationOptions"}, {"kind": "reference", "name": opts}]
                 if not any(s["name"] == "TextDocumentRegistrationOptions" for s in self.doc["structures"]):
                     return
@@ -587,6 +597,23 @@ class Evolver:
                 self.doc["structures"].append({"name": sname, "properties": [{"name": pname, "type": L_("vfA")}, {"name": "q", "type": {"kind": "base", "name": "uinteger"}, "optional": True}]})
                 self.new_structs.append(sname)
                 self.edits.append({"edit": "E1-new-structure", "name": sname, "properties": [pname, "q"]})
+            # a long owner with short literal-typed properties; the same on a structure other structures mix in
+            N_ = {"kind": "base", "name": "null"}
+            owner = self.fresh_type_name("VfLongOwner")
+            self.doc["structures"].append({"name": owner, "properties": [{"name": "abc", "type": L_("vfB")},
+                                                                          {"name": "xy", "type": {"kind": "or", "items": [N_, L_("vfC")]}, "optional": True}]})
+            self.new_structs.append(owner)
+            self.edits.append({"edit": "E1-new-structure", "name": owner, "properties": ["abc", "xy"]})
+            mixed_in = sorted({r["name"] for s_ in self.doc["structures"] for r in s_.get("mixins", []) if r["name"] in self.base_structs})
+            if mixed_in:
+                target = self.pick(mixed_in)
+                st_ = next(s_ for s_ in self.doc["structures"] if s_["name"] == target)
+                users = [s_ for s_ in self.doc["structures"] if any(r["name"] == target for r in s_.get("mixins", []))]
+                pname = next((n for n in ("uv", "rst", "o") if all(n not in {q["name"] for q in u.get("properties", [])} for u in users + [st_])), None)
+                if pname is not None:
+                    ty = {"kind": "or", "items": [N_, L_("vfD")]}
+                    st_["properties"].append({"name": pname, "type": ty, "optional": True})
+                    self.edits.append({"edit": "E2-new-property", "structure": target, "property": pname, "optional": True, "type": ty})
             return
         if focus == "substring-names":
             # a structure with exactly one "special" property (null-admitting, or a string literal) and optional properties whose
